@@ -29,9 +29,11 @@ def r1(ctx):
     t = cands[0].test
     sitev = [n for n in names_in(t) if 'pos' in n]
     contv = [n for n in names_in(t) if 'contig' in n and n != 'contig']
-    if len(sitev) != 1 or len(contv) != 1:
+    if len(sitev) != 1 or len(contv) > 1:
         raise AnalysisError(f'ownership test: cannot identify the site variables in `{src(t)}`')
-    ren = {sitev[0]: 'pos', 'start': 'start', 'end': 'end', contv[0]: 'c', 'contig': 'cj'}
+    ren = {sitev[0]: 'pos', 'start': 'start', 'end': 'end', 'contig': 'cj'}
+    if contv:
+        ren[contv[0]] = 'c'
     ncase, bad = check_pred(t, lambda e: e['c'] != e['cj'] or not (e['start'] <= e['pos'] < e['end']), symbols=['pos', 'start', 'end', 'c', 'cj'],
                             constraint=lambda e: e['start'] < e['end'] and e['c'] in (0, 1) and e['cj'] in (0, 1), atom_name=lambda x: ren.get(src(x)))
     ctx.counters['abstract_cases'] += ncase
